@@ -34,6 +34,12 @@ CHECKS = {
     "C14": ("exploration", "runtime monitoring: deterministic token-passing scheduler over real threads (sys.monitoring LINE/INSTRUCTION yield points, lock shim) with bounded-preemption DFS / PCT / random schedules; exactly-once + order history checker",
             "The real in-memory transport is driven by real threads under a deterministic scheduler that owns every context switch at line (and, in thorough, instruction) granularity of in_memory.py; scenarios of 2-5 threads over existing/fresh/shared channels and exact/wildcard patterns are explored by bounded-preemption DFS (exhaustive to the stated bound), PCT and random schedules, plus a free-running stress. Unambiguous histories (publisher, channel, seq) are checked for conservation, per-publisher order, pattern match and thread exceptions. Held = no violating history among the interleavings observed.",
             "Exhaustive only up to the stated preemption bound and granularity; watchdog activations (0 observed) would make a run inconclusive.", "DESIGN.md §4 C14"),
+    "C10": ("exploration", "runtime monitoring: metamorphic oracle — outcome with trace=None vs JsonlTraceDriver(detail=*), and normalised JSONL of repeated runs (fresh / reused Pipeline, histories in between), with hostile hook-bearing values",
+            "Generated succeeding and failing pipelines whose data/context carry hostile values (summary hooks __repr__/__len__/to_json/to_bytes/__eq__ that count, mutate or raise) are run untraced and traced at rotating detail levels: returned data/context or the raised exception (type, message) must be identical. The same configuration is then run twice as fresh Pipelines with a history of unrelated runs in between, and twice on one reused Pipeline: the JSONL streams must be identical after removing run id, timestamps, durations and sequence numbers. Held = no difference on the executions observed.",
+            "Volatile fields are exactly those the property names. Histories never load new modules (registry.fingerprint legitimately tracks the registry).", "DESIGN.md §4 C10"),
+    "C13": ("fault_enumeration", "runtime monitoring: offline checker over real traces — every prefix (crash at any line) vs a set-based reference verdict; permutations / k-way interleavings / subsets for order independence; finalise-twice",
+            "Real traces of faulted single runs (all failure kinds) and of run-space launches (failing run at every index; file and directory output) are fed to the real TraceAggregator: every prefix in global emission order must yield the documented verdict (complete iff both edges, else partial naming the missing edge, missing nodes = canonical nodes without SER, no orphans, launch roll-up = counts of its runs' verdicts), and random permutations, reversed/sorted orders, k-way interleavings of per-run files and random subsets must yield identical verdicts; each aggregator is finalised twice. Held = no deviation on the ingestions observed.",
+            "Reference verdict function in checks/c13.py (from docs/source/trace_aggregator_v1.rst). For arbitrary subsets only order-independence is checked.", "DESIGN.md §4 C13"),
 }
 
 NOT_BUILT_REASON = "check not implemented yet in this round (work in progress; see DESIGN.md §4 for the planned monitor)"
